@@ -582,7 +582,7 @@ def _create_sbml_reactions(
     """Create the reactions for the sbml model."""
     # Names of the model components and of the species references written so far.
     # Two reactions can have a computed coefficient on the same species
-    taken = set(model.ids)
+    taken = set(model.ids) | {c.getId() for c in sbml_model.getListOfCompartments()}
     for name, rxn in model.get_raw_reactions().items():
         sbml_rxn = sbml_model.createReaction()
         sbml_rxn.setId(_convert_id_to_sbml(id_=name, prefix="RXN"))
